@@ -4,3 +4,4 @@ import Xrfmv.Props.C20
 #print axioms Xrfmv.Props.C20.outputs_documented
 #print axioms Xrfmv.Props.C20.coerce_canonical
 #print axioms Xrfmv.Props.C20.outside_interface
+#print axioms Xrfmv.Props.C20.coerce_canonical_float_class
